@@ -306,6 +306,31 @@ def gen_const_value(c: Ctx, allow_neg=True):
     return v
 
 
+def case_variant(n: str):
+    for v in (n.swapcase(), n.capitalize(), n.lower(), n.upper()):
+        if v != n and v not in KEYWORDS and v not in RISKY and not DERIV_RE.match(v):
+            return v
+    return None
+
+
+def case_twins(draw, groups, all_names):
+    """with probability 1/5 make two names of one kind differ only in case (Km / km): ties of
+    case-insensitive orderings, distinct identifiers everywhere else"""
+    if draw(st.integers(0, 4)) != 0:
+        return
+    cands = [g for g in groups if len(g) >= 2]
+    if not cands:
+        return
+    g = draw(st.sampled_from(cands))
+    i = draw(st.integers(0, len(g) - 2))
+    v = case_variant(g[i])
+    if v is None or v in all_names:
+        return
+    old = g[i + 1]
+    g[i + 1] = v
+    all_names[all_names.index(old)] = v
+
+
 def gen_model(draw, cfg: GenCfg):
     c = Ctx(draw, cfg)
     ns = c.i(cfg.min_states, cfg.max_states)
@@ -313,6 +338,7 @@ def gen_model(draw, cfg: GenCfg):
     ni = c.i(0, cfg.max_inter)
     names = draw(st.lists(st.sampled_from(list(cfg.names)), min_size=ns + np_ + ni, max_size=ns + np_ + ni, unique=True))
     snames, pnames, inames = names[:ns], names[ns : ns + np_], names[ns + np_ :]
+    case_twins(draw, [snames, pnames, inames], names)
 
     # components
     ncomp = c.i(1, cfg.max_comps)
